@@ -95,7 +95,8 @@ def runtime_check(contract, func, args, L, stats=None, skip_frame=(), call_guard
         if bool(cond):
             raise ContractFailure(contract.key, 'post:must-raise-%s' % exc, 'returned normally')
     N = args
-    for name, g in contract.ensures(L, A, N, R, G, None):
+    for clause_ in contract.ensures(L, A, N, R, G, None):
+        name, g = clause_[0], clause_[1]
         if not bool(g):
             raise ContractFailure(contract.key, 'post:' + name)
     mods = set(contract.modifies)
